@@ -18,7 +18,7 @@ TRUSTED = ["Lean 4 kernel", "axioms: propext, Quot.sound, Classical.choice (at m
 ASSUMPTIONS = ["the SSH library calls the public-key callback only for a key the client proved possession of"]
 RULE = ("seeded key files: ed25519 keys with/without options, CRLF, leading blanks and comment fields, comment / blank / white-space / "
         "garbage lines anywhere (incl. after the last key), with and without final newline, offered key listed or not; password logins for the "
-        "three service users and ordinary users with job lists and allow-lists; health sessions with every command word; non-trivial = a tag")
+        "three service users and ordinary users with job lists and allow-lists; health sessions with every command word; non-trivial = a tag; commented-out key lines (the offered key behind '# ' or '#')")
 
 
 def _gen_callback(rng, n):
